@@ -204,7 +204,8 @@ statement `id` to `sid` (not a backtrace replay). `flagLog` holds `(flag, length
 /-- every system that is fresh in the sense of the three proof bundles, with no flag logged and the F12 repair in
     force, is a start state of the contract -/
 theorem C06_startC (s : BSt) (ha : PA.Fresh s) (hc : LoggerFresh s) (hf : StartF s) (h1 : s.flagLog = [])
-    (h2 : s.cfg.flushInvalidatedLoggers = true) : StartC s := ⟨ha, hc.inv, hf, h1, h2⟩
+    (h2 : s.cfg.flushInvalidatedLoggers = true)
+    (h3 : s.cfg.flushInterval = 0 ∨ s.cfg.flushBeforeLoggerErase = true) : StartC s := ⟨ha, hc.inv, hf, h1, h2, h3⟩
 
 /-- **C06, the contract of `flush_log()`.** For every schedule from a fresh system (with the flush covering loggers
     marked invalid — F12 repaired): let `st` be a Flush request of context `i` (everything the calling thread logged
@@ -386,7 +387,7 @@ example :
   decide
 
 theorem c05Init_startC : StartC (c05Init true) := by
-  refine C06_startC _ ⟨by decide, rfl, rfl, rfl, rfl, fun i => ?_⟩ ?_ (c05Init_startF true) rfl rfl
+  refine C06_startC _ ⟨by decide, rfl, rfl, rfl, rfl, fun i => ?_⟩ ?_ (c05Init_startF true) rfl rfl (Or.inl rfl)
   · cases i with
     | zero => rfl
     | succ j => rw [PA.lgOf_default_of_ge _ _ (by simp [c05Init])]; rfl
